@@ -10,6 +10,19 @@ use std::cell::Cell;
 thread_local! {
     static BUDGET: Cell<Option<u64>> = const { Cell::new(None) };
     static TICKS: Cell<u64> = const { Cell::new(0) };
+    static MOTION_CHECKS: Cell<u64> = const { Cell::new(0) };
+}
+
+/// Called at the start of every motion check. Lets an external validity checker attribute
+/// each of its queries to the motion check that issued it (the counter value it reads while
+/// being queried), whatever order the check visits the segment in.
+pub fn note_motion_check() {
+    MOTION_CHECKS.with(|c| c.set(c.get() + 1));
+}
+
+/// Number of motion checks started on this thread so far.
+pub fn motion_checks() -> u64 {
+    MOTION_CHECKS.with(|c| c.get())
 }
 
 /// Arms (`Some(n)`) or disarms (`None`) the iteration budget of the calling thread and resets the
